@@ -198,9 +198,12 @@ def c06_t3(ctx, f):
                     pb = [e for e in r.trace if e["callee"] == PUSH_BITS and e["depth"] == 1]
                     if len(pb) == 1:
                         widths[name] = to_py(pb[0]["args"][2])
-            ctx.check(rid, widths == {"Single": 4, "Double": 7, "Triple": 10}, fn.path + "/group-widths", where_fn(fn), fn.path,
-                      "digit group widths", "digit groups are not 1->4, 2->7, 3->10 bits", expected={"Single": 4, "Double": 7, "Triple": 10},
-                      found=widths, sample="digit group widths %s" % widths)
+            if not widths:
+                ctx.abstain(rid, "digit groups are not pushed through a helper taking a group-kind enum: widths not recognised", where_fn(fn))
+            else:
+                ctx.check(rid, widths == {"Single": 4, "Double": 7, "Triple": 10}, fn.path + "/group-widths", where_fn(fn), fn.path,
+                          "digit group widths", "digit groups are not 1->4, 2->7, 3->10 bits", expected={"Single": 4, "Double": 7, "Triple": 10},
+                          found=widths, sample="digit group widths %s" % widths)
             # which group kind is used where: residue switch and the triple loop
             _numeric_groups(ctx, rid, f, fn, helper)
         elif m == "Byte":
@@ -212,7 +215,12 @@ def c06_t3(ctx, f):
             ctx.check(rid, ok, fn.path + "/bytes", where_fn(fn), fn.path, "byte payload", "bytes are not appended unchanged (8 bits each)",
                       sample="push_u8_slice(input)")
     # terminator and alignment
-    at = anchor_fn(ctx, rid, f, "encode::add_terminator")
+    at = f.fn("encode::add_terminator")
+    if at is None:
+        # a private helper: inlining it is not a defect
+        ctx.abstain(rid, "private helper encode::add_terminator not found (inlined or renamed): terminator width not recognised")
+    else:
+        ctx.analysed(at)
     if at:
         s = push_sites(at)
         if len(s) == 1:
@@ -244,7 +252,11 @@ def c06_t3(ctx, f):
                       sample="terminator = min(data_bits - len, 4) zero bits")
         else:
             ctx.abstain(rid, "add_terminator does not consist of one push_bits", where_fn(at))
-    p8 = anchor_fn(ctx, rid, f, "encode::pad_to_8")
+    p8 = f.fn("encode::pad_to_8")
+    if p8 is None:
+        ctx.abstain(rid, "private helper encode::pad_to_8 not found (inlined or renamed): byte alignment not recognised")
+    else:
+        ctx.analysed(p8)
     if p8:
         s = push_sites(p8)
         if len(s) == 1:
@@ -351,7 +363,7 @@ def c06_r1(ctx, f):
     names = ["encode::add_terminator", "encode::pad_to_8", "compact::CompactQR::fill"]
     cs = [fn.calls(n) for n in names]
     if any(len(c) != 1 for c in cs):
-        ctx.anchor_missing(rid, "one call each to add_terminator / pad_to_8 / fill in encode::encode")
+        ctx.abstain(rid, "encode::encode does not call add_terminator / pad_to_8 / fill exactly once each: stage order not recognised", where_fn(fn))
         return
     at, p8, fl = [c[0] for c in cs]
     encs = [c for c in fn.calls() if (c.name or "").startswith("encode::encode_")]
